@@ -142,6 +142,10 @@ func genC09(tier string, seed int64) []Case {
 			add(c09Desc{Rt: rt, Exts: es, Trigger: trg.t, Allowed: trg.a})
 		}
 	}
+	// the handler serving an unsubscribed extension's next loses the CPU between the release for the INVOKE event and
+	// the rendering, until the teardown (which installs the shutdown event) is under way
+	add(c09Desc{Rt: "alreadyExited", Exts: []string{"unsubHeldRender"}, Trigger: "failure", Allowed: 2000})
+	add(c09Desc{Rt: "exitsOnTerm", Exts: []string{"unsubHeldRender"}, Trigger: "timeout", Allowed: 2000})
 	return cases
 }
 
@@ -287,6 +291,12 @@ func runC09(c *Ctx, d c09Desc) {
 			o.Events = []string{"INVOKE"}
 			o.OnEvent = func(p *vh.Proc, pt *vh.Party, n int, ev *vh.Resp) *vh.Exit { record(p, ev); return Stall(p) }
 			return vh.ExecPlan{Behave: w.ExtLoop(o), KillDelay: 25 * time.Millisecond}
+		case "unsubHeldRender":
+			// like unsubSlowKill; additionally the handler that serves this extension's next is held between its
+			// release (for the INVOKE event) and the rendering of the event until the teardown is under way
+			o.Events = []string{"INVOKE"}
+			o.OnEvent = func(p *vh.Proc, pt *vh.Party, n int, ev *vh.Resp) *vh.Exit { record(p, ev); return Stall(p) }
+			return vh.ExecPlan{Behave: w.ExtLoop(o), KillDelay: 60 * time.Millisecond}
 		case "alreadyExited":
 			o.OnEvent = func(p *vh.Proc, pt *vh.Party, n int, ev *vh.Resp) *vh.Exit {
 				record(p, ev)
@@ -341,7 +351,7 @@ func runC09(c *Ctx, d c09Desc) {
 	}
 	// every extension that is expected to be polling must be parked in next before the trigger
 	for i, k := range d.Exts {
-		if k == "subExits" || k == "subIgnores" || k == "unsub" || k == "unsubSlowKill" || (k == "alreadyExited" && d.Trigger != "failure") || (k == "subNotPolling") || (k == "subLatePoll") || (k == "stuck") {
+		if k == "subExits" || k == "subIgnores" || k == "unsub" || k == "unsubSlowKill" || k == "unsubHeldRender" || (k == "alreadyExited" && d.Trigger != "failure") || (k == "subNotPolling") || (k == "subLatePoll") || (k == "stuck") {
 			name := fmt.Sprintf("ext%d", i)
 			dl := time.Now().Add(5 * time.Second)
 			for time.Now().Before(dl) && w.E.ExtState(name) != "Ready" {
@@ -384,6 +394,29 @@ func runC09(c *Ctx, d c09Desc) {
 		retSeq = w.E.Log.Add(vh.Event{Src: "drv", Kind: "ret", Op: "shutdown"})
 	case "timeout", "failure":
 		reason = map[string]string{"timeout": "Timeout", "failure": "ReleaseFail"}[d.Trigger]
+		heldIdx := -1
+		for i, k := range d.Exts {
+			if k == "unsubHeldRender" {
+				heldIdx = i
+			}
+		}
+		if heldIdx >= 0 {
+			w.Hk.Hold("agentNext.released", 0)
+			pname := fmt.Sprintf("extension-ext%d-1", heldIdx)
+			go func() {
+				// resume the held handler once the teardown has asked for this extension to be killed
+				for dl := time.Now().Add(15 * time.Second); time.Now().Before(dl); time.Sleep(300 * time.Microsecond) {
+					for _, e := range w.E.Log.Snapshot() {
+						if e.Src == "sup" && e.Kind == "kill" && e.Op == pname {
+							time.Sleep(2 * time.Millisecond)
+							w.Hk.Release("agentNext.released")
+							return
+						}
+					}
+				}
+				w.Hk.Release("agentNext.released")
+			}()
+		}
 		inv = w.E.InvokeAsync([]byte("trigger-event"), vh.InvokeOpts{})
 		if !inv.Wait(time.Duration(timeout)*time.Millisecond + 2*time.Second + 10*time.Second) {
 			c.Check(false, "returns", "C09/hang/"+d.Trigger, "the invocation that triggers the reset never returned", nil)
@@ -543,7 +576,7 @@ func runC09(c *Ctx, d c09Desc) {
 			if c.Check(len(aliveKills) == 1, "kill_at_deadline", fmt.Sprintf("%s/kill-count-%d", ec, len(aliveKills)), "subscribed, non-polling extension must be killed exactly once", nil) && D > 0 {
 				c.Check(tOf(aliveKills[0]) >= D-time.Millisecond, "kill_not_before_deadline", ec+"/killed-early", "subscribed extension killed before the deadline", nil)
 			}
-		case "unsub", "unsubSlowKill":
+		case "unsub", "unsubSlowKill", "unsubHeldRender":
 			c.Check(len(got) == 0, "no_event_if_unsubscribed", ec+"/event-although-unsubscribed", "extension not subscribed to SHUTDOWN received a SHUTDOWN event", nil)
 			c.Check(len(aliveKills) == 1, "unsubscribed_killed", fmt.Sprintf("%s/kill-count-%d", ec, len(aliveKills)), "unsubscribed extension must be killed exactly once", nil)
 		case "alreadyExited", "launchFail":
